@@ -144,11 +144,18 @@ pub struct Ctx {
     pub scratch: PathBuf,
     /// Sub-selection of the check's parts (empty = all).
     pub parts: Vec<String>,
+    /// Replay mode: run only the scenario generated from this seed, `repeat` times (the code under
+    /// test has unseedable internal randomness, so one attempt is not enough).
+    pub only_seed: Option<u64>,
+    pub repeat: u64,
 }
 
 impl Ctx {
     /// Number of cases this shard should run for a nominal (quick, thorough) total.
     pub fn count(&self, quick_total: u64, thorough_total: u64) -> u64 {
+        if self.only_seed.is_some() {
+            return if self.shard == 0 { self.repeat } else { 0 };
+        }
         let total = match self.tier {
             Tier::Quick => quick_total,
             Tier::Thorough => thorough_total,
@@ -160,6 +167,11 @@ impl Ctx {
 
     pub fn rng(&self, label: &str) -> Rng {
         Rng::new(hash64(&(self.seed, self.shard as u64, label)))
+    }
+
+    /// The seed of the next scenario (the recorded one in replay mode).
+    pub fn scenario_seed(&self, fresh: u64) -> u64 {
+        self.only_seed.unwrap_or(fresh)
     }
 
     pub fn want(&self, part: &str) -> bool {
